@@ -209,13 +209,19 @@ func VH19b_resize() {
 	verif.Assume(verif.And(v >= 0, v <= 3))
 	// some traffic before: inbound messages queued (where the pattern receives); with "full" the receive
 	// queue is first shrunk to 1 and over-filled, so that the pipe's receiver goroutine is parked on it
+	room := "" // label suffix: the history is part of a finding's identity
+	overfilled := false
 	if verif.Choice("full", 2) == 1 {
+		overfilled = true
 		if sock.SetOption(mangos.OptionReadQLen, 1) != nil {
 			verif.Assume(false)
 		}
 		p1.Deliver(wireIn(proto, 'x'))
 		p1.Deliver(wireIn(proto, 'y'))
 		p1.Deliver(wireIn(proto, 'z'))
+	}
+	if room == "" && !overfilled {
+		room = "-with-room-in-the-queue"
 	}
 	p1.Deliver(wireIn(proto, 'a'))
 	verif.Quiesce()
@@ -232,7 +238,7 @@ func VH19b_resize() {
 		return
 	}
 	verif.Reach("resized")
-	verif.Assert(p1.CloseCalls == 0 && !p1.Closed, lab+"/"+opt+"/peer-disconnected-by-queue-resize")
+	verif.Assert(p1.CloseCalls == 0 && !p1.Closed, lab+"/"+opt+"/peer-disconnected-by-queue-resize"+room)
 	// traffic after the resize still flows in the directions the pattern has
 	var m *mangos.Message
 	var rerr error
@@ -244,12 +250,12 @@ func VH19b_resize() {
 		verif.Reach("send-only-pattern")
 	} else if proto != "req" && proto != "surveyor" {
 		// REQ/SURVEYOR deliver only answers to an outstanding request; others must deliver 'b' (or the queued 'a')
-		verif.Assert(g.Done(), lab+"/"+opt+"/no-delivery-after-resize")
+		verif.Assert(g.Done(), lab+"/"+opt+"/no-delivery-after-resize"+room)
 		if g.Done() {
 			verif.Assert(rerr == nil, lab+"/"+opt+"/recv-error-after-resize")
 		}
 	}
-	verif.Assert(p1.CloseCalls == 0 && !p1.Closed, lab+"/"+opt+"/peer-disconnected-after-resize-traffic")
+	verif.Assert(p1.CloseCalls == 0 && !p1.Closed, lab+"/"+opt+"/peer-disconnected-after-resize-traffic"+room)
 	_ = m
 	_ = g0
 	sock.Close()
